@@ -1,3 +1,7 @@
--- This module serves as the root of the `WowSrp` library.
--- Import modules here that should be built as part of the library.
-import WowSrp.Basic
+-- root of the library: every model, spec, lemma and property module
+import WowSrp.Model.Srp
+import WowSrp.Model.World
+import WowSrp.Model.Pin
+import WowSrp.Model.Integrity
+import WowSrp.Model.MatrixCard
+import WowSrp.Props.C07
